@@ -307,7 +307,9 @@ func runC14(c *mon.Ctx) {
 	runC14Reconfigured(c, now)
 	kcs := AllKeyCfgs()
 	flows := []string{"BuildAuthURL", "BuildAuthURLFromDocument", "BuildAuthURLRedirect", "BuildAuthURLRedirect-unsigned", "BuildLogoutURLRedirect", "AuthRedirect"}
-	n := c.N(3000, 150000)
+	n0 := c.N(3000, 150000)
+	dict := DictAll() // after the drawn cases: every string the library source spells out, once, as the relay state
+	n := n0 + len(dict)
 	for k := 0; k < n; k++ {
 		cs := c.Begin("redirect-url", k)
 		if cs == nil {
@@ -346,6 +348,11 @@ func runC14(c *mon.Ctx) {
 		relay := c14Relay[r.IntN(len(c14Relay))]
 		if r.IntN(12) == 0 {
 			relay = strings.Repeat("r/ &", 1024)
+		} else if r.IntN(8) == 0 {
+			relay = ValueString(r, "source-literal")
+		}
+		if k >= n0 {
+			relay = dict[k-n0]
 		}
 		cs.Desc("flow=%s idp=%s relay=%q keys=%s alg=%q sign=%v", flow, idp.name, trunc(relay, 60), kc, alg.URI, sp.SignAuthnRequests)
 		var out, wantDoc, idpURL string
